@@ -146,12 +146,19 @@ CLAIMS = {
         text="Proof (loop invariant over an arbitrary-order dict iteration with a ghost 'seen' set) that "
              "CompilationOptions.get_fingerprint puts EVERY attribute of the options object that the statement does not allow to be "
              "ignored - in particular language_level and compiler_directives - into the fingerprint data with its value, or raises "
-             "NotImplementedError; so two option objects differing in such an attribute cannot share a cythonize cache key. Kernel: "
-             "this key builder only.",
+             "NotImplementedError; so two option objects differing in such an attribute cannot share a cythonize cache key. Its nested "
+             "to_fingerprint renders every non-dict value with repr() (the rendering assumed injective) and with nothing weaker. "
+             "Cache.transitive_fingerprint (loop invariant over the dependency list, digest object as the set of data fed) feeds the "
+             "digest with the content hash of the source, of EVERY dependency that is not a C/C++ source or header, and with the "
+             "fingerprints of the extension flags and of the compilation options, and returns the digest of exactly that (or None "
+             "after an OSError: no caching). Kernel: these key builders.",
         note="Trusted: dv Python front end (strings abstracted to interned identities, option values to opaque identities), z3; "
-             "to_fingerprint/repr/sha256 assumed injective on the option-value domain. NOT covered (unverified surround, see DESIGN.md): "
-             "Cache.file_hash memoisation across compilations in one process, transitive_fingerprint's dependency walk, "
-             "Inline._inline_key call sites (the key omits cython_compiler_directives), cache lookup/store I/O.",
+             "repr/sha256 assumed injective on the option-value domain; file_hash = content hash, os.path.splitext, sorted (a permutation; "
+             "the contract is order-insensitive) and the two get_fingerprint methods are contract stubs at transitive_fingerprint's call "
+             "sites; try/except OSError over-approximated. NOT covered (unverified surround, see DESIGN.md): the dict branch of "
+             "to_fingerprint (sorting, recursion), Cache.file_hash itself and its memoisation across compilations in one process, the "
+             "dependency discovery that produces the list (C46), Inline._inline_key call sites (the key omits "
+             "cython_compiler_directives), cache lookup/store I/O.",
         ref="4 C48"),
     "C02": dict(
         text="Proof on the abstract CPython object model that the constant-operand fast paths __Pyx_PyLong_{Add,Subtract,FloorDivide,"
